@@ -9,7 +9,7 @@ use std::{
     ops::Not,
     sync::{
         Arc,
-        atomic::{AtomicUsize, Ordering},
+        atomic::{AtomicU64, AtomicUsize, Ordering},
     },
 };
 
@@ -85,12 +85,18 @@ enum Entry<C> {
 pub struct VersionedOperation<V> {
     op: Operation<V>,
     epoch: Epoch,
+
+    /// Position of the operation in the issue order of its log; breaks ties
+    /// between operations of the same epoch.
+    seq: u64,
 }
 
 impl<V> Eq for VersionedOperation<V> {}
 
 impl<V> PartialEq for VersionedOperation<V> {
-    fn eq(&self, other: &Self) -> bool { self.epoch.eq(&other.epoch) }
+    fn eq(&self, other: &Self) -> bool {
+        self.epoch == other.epoch && self.seq == other.seq
+    }
 }
 
 impl<V> PartialOrd for VersionedOperation<V> {
@@ -101,7 +107,9 @@ impl<V> PartialOrd for VersionedOperation<V> {
 
 impl<V> Ord for VersionedOperation<V> {
     fn cmp(&self, other: &Self) -> std::cmp::Ordering {
-        self.epoch.cmp(&other.epoch)
+        // Reverse order: the oldest operation sits at the top of the heap so
+        // that flushing trims the log from its old end.
+        (other.epoch, other.seq).cmp(&(self.epoch, self.seq))
     }
 }
 
@@ -120,6 +128,7 @@ enum ConcurrentLogMessage<V> {
 struct ConcurrentLog<V> {
     log: RwLock<BinaryHeap<VersionedOperation<V>>>,
     deferred_messages: SegQueue<ConcurrentLogMessage<V>>,
+    next_seq: AtomicU64,
 }
 
 impl<V: Eq + Hash + Clone> ConcurrentLog<V> {
@@ -127,8 +136,11 @@ impl<V: Eq + Hash + Clone> ConcurrentLog<V> {
         Self {
             log: RwLock::new(BinaryHeap::new()),
             deferred_messages: SegQueue::new(),
+            next_seq: AtomicU64::new(0),
         }
     }
+
+    fn next_seq(&self) -> u64 { self.next_seq.fetch_add(1, Ordering::SeqCst) }
 
     fn apply_message(&self, op: ConcurrentLogMessage<V>) {
         let Some(mut lock) = self.log.try_write() else {
@@ -177,20 +189,29 @@ impl<V: Eq + Hash + Clone> ConcurrentLog<V> {
         // fix any deferred messages
         Self::fix(&mut log, &self.deferred_messages);
 
+        // replay in issue order: the heap iterates in arbitrary order
+        let mut ordered = log.iter().collect::<Vec<_>>();
+        ordered.sort_by_key(|op| (op.epoch, op.seq));
+
+        Self::replay(&ordered)
+    }
+
+    /// Folds the operations, given in issue order, into the sets of elements
+    /// that were added and removed: for every element its last operation
+    /// decides.
+    fn replay(ordered: &[&VersionedOperation<V>]) -> StagingShapshot<V> {
         let mut added = HashSet::with_hasher(FxBuildHasher::default());
         let mut removed = HashSet::with_hasher(FxBuildHasher::default());
 
-        for op in log.iter() {
+        for op in ordered {
             match &op.op {
                 Operation::Insert(v) => {
-                    if removed.remove(v).not() {
-                        added.insert(v.clone());
-                    }
+                    removed.remove(v);
+                    added.insert(v.clone());
                 }
                 Operation::Remove(v) => {
-                    if added.remove(v).not() {
-                        removed.insert(v.clone());
-                    }
+                    added.remove(v);
+                    removed.insert(v.clone());
                 }
             }
         }
@@ -533,8 +554,9 @@ impl<
 
         // apply the operation to the log
         {
+            let seq = log.next_seq();
             log.apply_message(ConcurrentLogMessage::AppendOperation(
-                VersionedOperation { op: op.clone(), epoch },
+                VersionedOperation { op: op.clone(), epoch, seq },
             ));
         }
 
